@@ -1,35 +1,571 @@
 //! Per-property workloads: which tests, layouts, drivers and fault plans are run and traced.
+//!
+//! Every workload is shaped by the quantifier of its property and kept clear of the corners other properties own
+//! (DESIGN section 6.2): the control-flow workload has no clock entries, the protocol workload no device feedback, ...
 
 use crate::gen::*;
+use crate::model::*;
 use crate::printer::*;
 use crate::run::*;
-use crate::model::*;
 use rand::rngs::StdRng;
+use rand::seq::SliceRandom;
 use rand::{Rng, SeedableRng};
-use serde_json::Value as J;
+use serde_json::{json, Value as J};
 
 pub fn tracegen(prop: &str, seed: u64, runs: usize) -> Vec<J> {
     let mut out = vec![];
-    let mut top = StdRng::seed_from_u64(seed.wrapping_mul(0x9E37_79B9_7F4A_7C15) ^ prop.bytes().fold(0u64, |a, b| a * 131 + b as u64));
+    let mut top = StdRng::seed_from_u64(seed.wrapping_mul(0x9E37_79B9_7F4A_7C15) ^ prop.bytes().fold(0u64, |a, b| a.wrapping_mul(131).wrapping_add(b as u64)));
     for run in 1..=runs {
         let s: u64 = top.gen();
-        match prop {
-            "C01" | "C18" => out.extend(control_flow_run(prop, run, s)),
+        let lines = match prop {
+            "C01" | "C18" => general_run(prop, run, s, Knobs::control_flow(), Opt::default()),
+            "C19" => general_run(prop, run, s, Knobs { max_virtuals: 1, ..Knobs::control_flow() }, Opt { layout: Lay::Random, ..Opt::default() }),
+            "C02" => general_run(
+                prop,
+                run,
+                s,
+                Knobs { p_c: 0.2, p_x: 0.1, bidir: true, max_stmts: 10, ..Knobs::rows() },
+                Opt { after_none: 2, random_prefix: true, faults: FaultMode::ErrorsOnly(0.15), layouts: LayoutMode::Subset, ..Opt::default() },
+            ),
+            "C03" => general_run(
+                prop,
+                run,
+                s,
+                Knobs { bidir: true, p_c: 0.05, max_virtuals: 1, ..Knobs::rows() },
+                Opt { layouts: LayoutMode::Subset, mode: ValMode::Wild, p_zx: 0.25, many_outputs_in_header: true, ..Opt::default() },
+            ),
+            "C04" => general_run(
+                prop,
+                run,
+                s,
+                Knobs { p_device: 0.6, p_c: 0.1, p_x: 0.05, bidir: true, max_stmts: 14, ..Knobs::control_flow() },
+                Opt { layouts: LayoutMode::MaybeMissing, mode: ValMode::Small, p_zx: 0.008, zx_all: true, ..Opt::default() },
+            ),
+            "C05" => general_run(
+                prop,
+                run,
+                s,
+                Knobs { p_x: 0.22, p_c: 0.22, p_z: 0.05, bidir: true, max_depth: 2, max_stmts: 8, p_row: 0.6, p_loop: 0.15, p_repeat: 0.1, p_while: 0.03, max_bound: 2, ..Knobs::control_flow() },
+                Opt { max_rows: 150, many_outputs_in_header: true, ..Opt::default() },
+            ),
+            "C13" => general_run(
+                prop,
+                run,
+                s,
+                Knobs { p_c: 0.15, p_x: 0.05, bidir: true, max_stmts: 10, max_virtuals: 1, ..Knobs::rows() },
+                Opt { faults: FaultMode::All(0.8), layouts: LayoutMode::Subset, mode: ValMode::InWidth, ..Opt::default() },
+            ),
+            "C14" => general_run(
+                prop,
+                run,
+                s,
+                Knobs { max_virtuals: 4, bidir: true, p_c: 0.08, max_stmts: 14, ..Knobs::control_flow() },
+                Opt { layouts: LayoutMode::Subset, mode: ValMode::Wild, p_zx: 0.06, ..Opt::default() },
+            ),
+            "C17" => general_run(
+                prop,
+                run,
+                s,
+                Knobs { allow_random: true, p_reset: 0.12, big_consts: run % 3 == 0, max_virtuals: 1, p_x: 0.05, p_c: 0.05, ..Knobs::control_flow() },
+                Opt::default(),
+            ),
+            "C06" => binding_run(prop, run, s),
+            "C07" => width_run(prop, run, s),
+            "C08" => expr_run(prop, run, s),
+            "C10" => error_run(prop, run, s),
             _ => panic!("no trace workload for {prop}"),
-        }
+        };
+        out.extend(lines);
     }
     out
 }
 
-fn control_flow_run(prop: &str, run: usize, seed: u64) -> Vec<J> {
-    let mut g = Gen::new(seed, Knobs::control_flow());
-    let plan = g.plan();
+#[derive(Debug, Clone, Copy, PartialEq)]
+pub enum Lay {
+    Mixed,
+    Random,
+    Canonical,
+}
+
+#[derive(Debug, Clone, Copy, PartialEq)]
+pub enum LayoutMode {
+    /// every output-capable signal, in signal-list order
+    Full,
+    /// a random subset and permutation which still supplies everything the program reads
+    Subset,
+    /// like Subset, but sometimes a signal the program reads is missing (the constructor must fail)
+    MaybeMissing,
+}
+
+#[derive(Debug, Clone, Copy, PartialEq)]
+pub enum FaultMode {
+    None,
+    /// with this probability one call fails with an error
+    ErrorsOnly(f64),
+    /// with this probability one call fails or deviates from the first layout
+    All(f64),
+}
+
+#[derive(Debug, Clone)]
+pub struct Opt {
+    pub layout: Lay,
+    pub layouts: LayoutMode,
+    pub mode: ValMode,
+    pub p_zx: f64,
+    pub zx_all: bool,
+    pub faults: FaultMode,
+    pub max_rows: usize,
+    /// call next() this many more times after it returned None
+    pub after_none: usize,
+    /// stop after a random number of rows (every prefix of the iteration is a behaviour)
+    pub random_prefix: bool,
+    pub many_outputs_in_header: bool,
+}
+
+impl Default for Opt {
+    fn default() -> Self {
+        Opt {
+            layout: Lay::Mixed,
+            layouts: LayoutMode::Full,
+            mode: ValMode::Small,
+            p_zx: 0.0,
+            zx_all: false,
+            faults: FaultMode::None,
+            max_rows: 60,
+            after_none: 0,
+            random_prefix: false,
+            many_outputs_in_header: false,
+        }
+    }
+}
+
+pub fn choose_layout(lay: Lay, seed: u64, rng: &mut StdRng) -> Layout {
+    match lay {
+        Lay::Canonical => Layout::canonical(),
+        Lay::Random => Layout::random(seed),
+        Lay::Mixed => {
+            if rng.gen_bool(0.5) {
+                Layout::canonical()
+            } else {
+                Layout::random(seed)
+            }
+        }
+    }
+}
+
+/// Build the policy spec for a test: layout selection, value mode, fault plan.
+pub fn policy_for(test: &Test, opt: &Opt, seed: u64, rng: &mut StdRng, expected_calls: usize) -> PolicySpec {
+    let table: Vec<&Sig> = test.supplied.iter().filter(|s| s.is_out()).collect();
+    let n = table.len();
+    let rd = reads(&test.prog);
+    // signals the statements read carry small numbers; signals only read by declarations may be anything
+    let rd_stmts = reads(&strip_declares(&test.prog));
+    let numeric: Vec<usize> = (0..n).filter(|&j| rd_stmts.contains(&table[j].name)).collect();
+    let must_supply: Vec<usize> = (0..n).filter(|&j| rd.contains(&table[j].name)).collect();
+    let mut layout: Vec<usize> = (0..n).collect();
+    match opt.layouts {
+        LayoutMode::Full => {}
+        LayoutMode::Subset | LayoutMode::MaybeMissing => {
+            layout.shuffle(rng);
+            let keep = rng.gen_range(0..=n);
+            let mut kept: Vec<usize> = layout.iter().cloned().take(keep).collect();
+            for j in &must_supply {
+                if !kept.contains(j) {
+                    let pos = rng.gen_range(0..=kept.len());
+                    kept.insert(pos, *j);
+                }
+            }
+            if opt.layouts == LayoutMode::MaybeMissing && !must_supply.is_empty() && rng.gen_bool(0.12) {
+                let drop = *must_supply.choose(rng).unwrap();
+                kept.retain(|j| *j != drop);
+            }
+            layout = kept;
+        }
+    }
+    let fault = match opt.faults {
+        FaultMode::None => None,
+        FaultMode::ErrorsOnly(p) => {
+            if rng.gen_bool(p) {
+                Some((rng.gen_range(0..=expected_calls.min(12)), Fault::Error(rng.gen_range(1..1000))))
+            } else {
+                None
+            }
+        }
+        FaultMode::All(p) => {
+            if rng.gen_bool(p) {
+                let at = rng.gen_range(0..=expected_calls.min(12));
+                let f = match rng.gen_range(0..8) {
+                    0 | 1 | 2 => Fault::Error(rng.gen_range(1..1000)),
+                    3 => Fault::Drop,
+                    4 => Fault::Add,
+                    5 => Fault::Duplicate,
+                    6 => Fault::Swap,
+                    _ => Fault::Substitute,
+                };
+                // deviations are defined relative to the first answer, so they start at call 1
+                let at = if matches!(f, Fault::Error(_)) { at } else { at.max(1) };
+                Some((at, f))
+            } else {
+                None
+            }
+        }
+    };
+    PolicySpec {
+        seed,
+        layout,
+        widths: table.iter().map(|s| s.bits).collect(),
+        mode: opt.mode,
+        numeric,
+        p_zx: opt.p_zx,
+        zx_all: opt.zx_all,
+        fault,
+        foreign: n,
+    }
+}
+
+fn strip_declares(stmts: &[Stmt]) -> Vec<Stmt> {
+    stmts
+        .iter()
+        .filter(|s| !matches!(s, Stmt::Declare { .. }))
+        .map(|s| match s {
+            Stmt::Loop { var, max, body } => Stmt::Loop { var: var.clone(), max: max.clone(), body: strip_declares(body) },
+            Stmt::While { cond, body } => Stmt::While { cond: cond.clone(), body: strip_declares(body) },
+            s => s.clone(),
+        })
+        .collect()
+}
+
+fn general_run(prop: &str, run: usize, seed: u64, knobs: Knobs, opt: Opt) -> Vec<J> {
+    let mut g = Gen::new(seed, knobs);
+    let mut plan = g.plan();
+    if opt.many_outputs_in_header {
+        // bind more output columns so that rows carry several checked outputs
+        let mut extra: Vec<String> = plan.supplied.iter().filter(|s| s.dir == Dir::Out && !plan.header.contains(&s.name)).map(|s| s.name.clone()).collect();
+        extra.shuffle(&mut g.rng);
+        for e in extra.into_iter().take(3) {
+            plan.header.push(e);
+            plan.col_is_input.push(false);
+        }
+    }
     let prog = g.program(&plan);
     let test = Test { header: plan.header.clone(), supplied: plan.supplied.clone(), prog };
-    let layout = if g.rng.gen_bool(0.5) { Layout::canonical() } else { Layout::random(seed) };
+    let layout = choose_layout(opt.layout, seed, &mut g.rng);
     let printed = print_test(&test.header, &test.prog, &layout);
+    let own_write = g.rng.gen_bool(0.5);
+    let max_rows = if opt.random_prefix && g.rng.gen_bool(0.5) { g.rng.gen_range(0..10) } else { opt.max_rows };
+    let spec = policy_for(&test, &opt, seed, &mut g.rng, 10);
+    let cfg = RunCfg { run, prop: prop.to_string(), own_write, max_rows, rng_seed: seed, after_none: opt.after_none, cfg_note: json!({"policy": format!("{:?}", spec)}) };
     let prep = Prepared { test, printed, layout };
-    let n_out = prep.test.supplied.iter().filter(|s| s.is_out()).count();
-    let cfg = RunCfg { run, prop: prop.to_string(), own_write: g.rng.gen_bool(0.5), max_rows: 60, rng_seed: seed };
-    trace_run(&prep, &cfg, policy_small(seed, n_out))
+    trace_run(&prep, &cfg, make_policy(spec))
+}
+
+// ---------------------------------------------------------------------------------------------
+// C06: binding by header name -- any header against any signal list
+
+fn binding_run(prop: &str, run: usize, seed: u64) -> Vec<J> {
+    let mut rng = StdRng::seed_from_u64(seed);
+    // names real circuits use: header names are any non-blank text
+    let pool = ["A", "B", "Q", "R", "S", "~CLR", "I/O7", "Cn+4", "C", "x", "D_out", "é1", "n"];
+    let mut names: Vec<&str> = pool.to_vec();
+    names.shuffle(&mut rng);
+    let nsig = rng.gen_range(1..=6);
+    let mut supplied = vec![];
+    for name in names.into_iter().take(nsig) {
+        let bits = *[1usize, 2, 4, 8, 16, 31, 32, 33, 63, 64].choose(&mut rng).unwrap();
+        let def = match rng.gen_range(0..4) {
+            0 => Val::Z,
+            1 => Val::N(0),
+            2 => Val::N(rng.gen_range(0..1000)),
+            _ => Val::N(*BOUNDARY.choose(&mut rng).unwrap()),
+        };
+        supplied.push(match rng.gen_range(0..3) {
+            0 => Sig::input(name, bits, def),
+            1 => Sig::output(name, bits),
+            _ => Sig::bidir(name, bits, def),
+        });
+    }
+    // candidate columns: <name> for every signal, <name>_out for bidirectional ones; any subset, any order
+    let mut cols: Vec<(String, bool)> = vec![];
+    for s in &supplied {
+        cols.push((s.name.clone(), s.is_in()));
+        if s.dir == Dir::Bidir {
+            cols.push((format!("{}_out", s.name), false));
+        }
+    }
+    // a column <x>_out may clash with a supplied signal literally called <x>_out: then it is that signal's column
+    cols.sort();
+    cols.dedup_by(|a, b| a.0 == b.0);
+    cols.shuffle(&mut rng);
+    let keep = rng.gen_range(1..=cols.len());
+    cols.truncate(keep);
+    let header: Vec<String> = cols.iter().map(|c| c.0.clone()).collect();
+    let col_is_input: Vec<bool> = header.iter().map(|h| supplied.iter().any(|s| &s.name == h && s.is_in())).collect();
+    let plan = Plan { header: header.clone(), supplied: supplied.clone(), col_is_input, bit_pairs: vec![], virtuals: vec![], readable: vec![] };
+    let mut g = Gen::new(seed ^ 1, Knobs { p_expr: 0.1, p_x: 0.05, p_c: 0.08, p_z: 0.1, p_bits: 0.0, wide_literals: true, vars: vec!["k".into()], expr_depth: 1, max_stmts: 8, max_depth: 1, p_while: 0.0, p_let: 0.05, ..Knobs::rows() });
+    // expressions in this workload use only the loop variable k and constants: no device reads
+    let mut prog = vec![];
+    let nrows = g.rng.gen_range(1..6);
+    for _ in 0..nrows {
+        let id = g.row_id();
+        prog.push(Stmt::Row { id, entries: lit_entries(&mut g, &plan, false) });
+    }
+    if g.rng.gen_bool(0.4) {
+        let id = g.row_id();
+        let body = vec![Stmt::Row { id, entries: lit_entries(&mut g, &plan, true) }];
+        prog.push(Stmt::Loop { var: "k".into(), max: Expr::Num(g.rng.gen_range(1..4)), body });
+    }
+    let test = Test { header, supplied, prog };
+    let layout = choose_layout(Lay::Mixed, seed, &mut g.rng);
+    let printed = print_test(&test.header, &test.prog, &layout);
+    let opt = Opt { layouts: LayoutMode::Subset, mode: ValMode::InWidth, ..Opt::default() };
+    let spec = policy_for(&test, &opt, seed, &mut g.rng, 6);
+    let cfg = RunCfg { run, prop: prop.to_string(), own_write: g.rng.gen_bool(0.5), max_rows: 80, rng_seed: seed, after_none: 0, cfg_note: json!({"policy": format!("{:?}", spec)}) };
+    trace_run(&Prepared { test, printed, layout }, &cfg, make_policy(spec))
+}
+
+fn lit_entries(g: &mut Gen, plan: &Plan, in_loop: bool) -> Vec<Entry> {
+    plan.col_is_input
+        .iter()
+        .map(|&is_in| {
+            let r: f64 = g.rng.gen();
+            if is_in {
+                if r < 0.06 {
+                    Entry::X
+                } else if r < 0.14 {
+                    Entry::C
+                } else if r < 0.24 {
+                    Entry::Z
+                } else if r < 0.3 && in_loop {
+                    Entry::Expr(Expr::bin("+", Expr::id("k"), Expr::Num(g.rng.gen_range(0..100))))
+                } else {
+                    Entry::Num(lit(g))
+                }
+            } else if r < 0.2 {
+                Entry::X
+            } else if r < 0.3 {
+                Entry::Z
+            } else {
+                Entry::Num(lit(g))
+            }
+        })
+        .collect()
+}
+
+fn lit(g: &mut Gen) -> i64 {
+    match g.rng.gen_range(0..4) {
+        0 => (*BOUNDARY.choose(&mut g.rng).unwrap()).max(0),
+        1 => g.rng.gen_range(0..i64::MAX),
+        _ => g.rng.gen_range(0..300),
+    }
+}
+
+// ---------------------------------------------------------------------------------------------
+// C07: truncation to the signal width, every width 1..=64, both paths, every kind of entry
+
+fn width_run(prop: &str, run: usize, seed: u64) -> Vec<J> {
+    let mut rng = StdRng::seed_from_u64(seed);
+    // the run number sweeps the widths so that every tier covers 1..=64 completely
+    let bits = (run - 1) % 64 + 1;
+    let vals: Vec<i64> = (0..4)
+        .map(|i| match (run / 64 + i) % 3 {
+            0 => BOUNDARY[(run + i * 7) % BOUNDARY.len()],
+            1 => rng.gen::<i64>(),
+            _ => {
+                let k = rng.gen_range(0..64);
+                (1i64 << k).wrapping_add(rng.gen_range(-2..3))
+            }
+        })
+        .collect();
+    let supplied = vec![
+        Sig::input("I", bits, Val::N(0)),
+        Sig::bidir("D", bits, Val::Z),
+        Sig::output("O", bits),
+        Sig::output("s", 64),
+    ];
+    let header: Vec<String> = ["I", "D", "D_out", "O", "V"].iter().map(|s| s.to_string()).collect();
+    let mut prog = vec![Stmt::Declare { name: "V".into(), e: Expr::id("s") }];
+    let mut id = 0;
+    let mut row = |entries: Vec<Entry>| {
+        id += 1;
+        Stmt::Row { id, entries }
+    };
+    for v in &vals {
+        let e = Gen::const_of(*v);
+        // literal entries can only be non-negative; negative values come through expressions
+        let lit = if *v >= 0 { Entry::Num(*v) } else { Entry::Expr(e.clone()) };
+        prog.push(row(vec![lit.clone(), lit.clone(), lit.clone(), lit.clone(), lit.clone()]));
+        prog.push(row(vec![Entry::Expr(e.clone()), Entry::Expr(e.clone()), Entry::Expr(e.clone()), Entry::Expr(e.clone()), Entry::Expr(e.clone())]));
+        // through a variable and arithmetic that wraps
+        prog.push(Stmt::Let { name: "t".into(), e: e.clone() });
+        // (no arithmetic here: overflow behaviour is C08's business)
+        let te = Expr::id("t");
+        prog.push(row(vec![Entry::Expr(te.clone()), Entry::Z, Entry::Expr(te.clone()), Entry::X, Entry::Expr(te)]));
+    }
+    let test = Test { header, supplied, prog };
+    let layout = choose_layout(Lay::Mixed, seed, &mut rng);
+    let printed = print_test(&test.header, &test.prog, &layout);
+    let opt = Opt { mode: ValMode::Wild, ..Opt::default() };
+    let mut spec = policy_for(&test, &opt, seed, &mut rng, 6);
+    spec.mode = ValMode::Wild;
+    let cfg = RunCfg { run, prop: prop.to_string(), own_write: rng.gen_bool(0.5), max_rows: 80, rng_seed: seed, after_none: 0, cfg_note: json!({"bits": bits}) };
+    trace_run(&Prepared { test, printed, layout }, &cfg, make_policy(spec))
+}
+
+// ---------------------------------------------------------------------------------------------
+// C08: expressions, observed un-truncated through a virtual-signal column
+
+fn expr_run(prop: &str, run: usize, seed: u64) -> Vec<J> {
+    let vars: Vec<String> = ["a", "b", "c", "q", "r"].iter().map(|s| s.to_string()).collect();
+    let mut g = Gen::new(seed, Knobs { vars: vars.clone(), big_consts: true, allow_div: true, expr_depth: 4, p_device: 0.3, ..Knobs::control_flow() });
+    let supplied = vec![Sig::input("A", 64, Val::N(0)), Sig::output("q", 64), Sig::output("r", 64), Sig::output("a", 64), Sig::output("b", 64), Sig::output("c", 64)];
+    let header: Vec<String> = ["A", "V"].iter().map(|s| s.to_string()).collect();
+    let plan = Plan { header: header.clone(), supplied: supplied.clone(), col_is_input: vec![true, false], bit_pairs: vec![], virtuals: vec![], readable: vec!["q".into(), "r".into()] };
+    let mut prog = vec![Stmt::Declare { name: "V".into(), e: Expr::Num(0) }];
+    // a valuation including 64-bit boundary values
+    for v in ["a", "b", "c"] {
+        if g.rng.gen_bool(0.8) {
+            let c = if g.rng.gen_bool(0.6) { *BOUNDARY.choose(&mut g.rng).unwrap() } else { g.rng.gen::<i64>() >> g.rng.gen_range(0..64) };
+            prog.push(Stmt::Let { name: v.into(), e: Gen::const_of(c) });
+        }
+    }
+    let nrows = g.rng.gen_range(2..7);
+    for i in 0..nrows {
+        let depth = 1 + (run + i) % 5;
+        let e = tree(&mut g, depth, &plan);
+        let id = g.row_id();
+        prog.push(Stmt::Row { id, entries: vec![Entry::Expr(e.clone()), Entry::Expr(e)] });
+    }
+    let test = Test { header, supplied, prog };
+    let layout = Layout { mixed_radix: g.rng.gen_bool(0.7), parens: *[Parens::Minimal, Parens::Minimal, Parens::Full, Parens::Random].choose(&mut g.rng).unwrap(), tight: g.rng.gen_bool(0.4), ..Layout::canonical() };
+    let layout = Layout { seed, ..layout };
+    let printed = print_test(&test.header, &test.prog, &layout);
+    let opt = Opt { mode: ValMode::Wild, ..Opt::default() };
+    let mut spec = policy_for(&test, &opt, seed, &mut g.rng, 6);
+    // the device outputs read by expressions carry 64-bit boundary numbers too, never Z/X here
+    spec.numeric.clear();
+    spec.p_zx = 0.0;
+    let cfg = RunCfg { run, prop: prop.to_string(), own_write: false, max_rows: 40, rng_seed: seed, after_none: 0, cfg_note: json!({}) };
+    trace_run(&Prepared { test, printed, layout }, &cfg, make_policy(spec))
+}
+
+/// an expression tree over every operator of the property, without the division guard when the divisor is a
+/// non-zero constant, with shift counts of every size
+fn tree(g: &mut Gen, depth: usize, plan: &Plan) -> Expr {
+    if depth == 0 {
+        return match g.rng.gen_range(0..3) {
+            0 => Gen::const_of(*BOUNDARY.choose(&mut g.rng).unwrap()),
+            1 => Expr::Num(g.rng.gen_range(0..70)),
+            _ => {
+                if g.rng.gen_bool(0.3) {
+                    Expr::Id(plan.readable.choose(&mut g.rng).unwrap().clone())
+                } else {
+                    Expr::Id(g.k.vars[..3].choose(&mut g.rng).unwrap().clone())
+                }
+            }
+        };
+    }
+    let c = g.rng.gen_range(0..100);
+    if c < 70 {
+        let ops = ["+", "-", "*", "/", "%", "&", "|", "^", "<<", ">>", "<", ">", "<=", ">=", "=", "!="];
+        let op = *ops.choose(&mut g.rng).unwrap();
+        let l = tree(g, depth - 1, plan);
+        let mut r = tree(g, depth - 1, plan);
+        if op == "/" || op == "%" {
+            r = match g.rng.gen_range(0..3) {
+                0 => Gen::const_of(*[1i64, -1, 2, 3, 7, -7, 10, i64::MAX, i64::MIN, 65536].choose(&mut g.rng).unwrap()),
+                _ => Expr::bin("|", r, Expr::Num(1)),
+            };
+        }
+        Expr::bin(op, l, r)
+    } else if c < 85 {
+        let op = *["-", "!", "~"].choose(&mut g.rng).unwrap();
+        Expr::un(op, tree(g, depth - 1, plan))
+    } else {
+        // the unselected branch would fail if it were evaluated (lazy ite)
+        let cond = tree(g, depth - 1, plan);
+        let good = tree(g, depth - 1, plan);
+        if g.rng.gen_bool(0.4) {
+            let bad = Expr::bin("/", Expr::Num(1), Expr::Num(0));
+            if g.rng.gen_bool(0.5) {
+                Expr::call("ite", vec![Expr::bin("|", cond, Expr::Num(1)), good, bad])
+            } else {
+                Expr::call("ite", vec![Expr::bin("&", cond, Expr::Num(0)), bad, good])
+            }
+        } else {
+            Expr::call("ite", vec![cond, good, tree(g, depth - 1, plan)])
+        }
+    }
+}
+
+// ---------------------------------------------------------------------------------------------
+// C10: conditions that make evaluation impossible, at every expression position; wide signals
+
+fn error_run(prop: &str, run: usize, seed: u64) -> Vec<J> {
+    let mut g = Gen::new(seed, Knobs { p_device: 0.3, big_consts: true, bidir: true, p_c: 0.05, p_x: 0.03, max_stmts: 12, max_virtuals: 1, ..Knobs::control_flow() });
+    let mut plan = g.plan();
+    // wide signals
+    for s in plan.supplied.iter_mut() {
+        if g.rng.gen_bool(0.3) {
+            s.bits = *[62usize, 63, 64].choose(&mut g.rng).unwrap();
+        }
+    }
+    let mut prog = g.program(&plan);
+    // one poisoned expression of a random kind
+    let poison = match run % 6 {
+        0 => Expr::bin("/", g.expr(1), Expr::bin("-", Expr::Num(3), Expr::Num(3))),
+        1 => Expr::bin("%", g.expr(1), Expr::Num(0)),
+        2 => Expr::id("u"), // assigned only inside a while that never runs; a device output `u` does not exist
+        3 => Expr::call("random", vec![Gen::const_of(*[1i64, 0, -1, -5, i64::MIN].choose(&mut g.rng).unwrap())]),
+        4 => Expr::call("signExt", vec![Expr::Num(4), g.expr(1)]),
+        _ => Expr::bin("+", Expr::Num(1), Expr::bin("/", Expr::Num(7), Expr::bin("&", g.expr(1), Expr::Num(0)))),
+    };
+    let needs_u = run % 6 == 2;
+    if needs_u {
+        // `u` is in scope for the parser (while opens no scope) but never assigned at run time
+        prog.insert(0, Stmt::While { cond: Expr::Num(0), body: vec![Stmt::Let { name: "u".into(), e: Expr::Num(1) }] });
+    }
+    // wrap it at a random expression position
+    let wrapped = match g.rng.gen_range(0..4) {
+        0 => poison,
+        1 => Expr::bin("+", g.expr(1), poison),
+        2 => Expr::call("ite", vec![Expr::Num(1), poison, Expr::Num(0)]),
+        _ => Expr::un("-", poison),
+    };
+    let pos_kind = g.rng.gen_range(0..5);
+    let id = g.row_id();
+    let mut entries = g.entries(&plan);
+    let stmt = match pos_kind {
+        0 => Stmt::Let { name: "a".into(), e: wrapped },
+        1 => {
+            let id2 = g.row_id();
+            Stmt::Loop { var: "i".into(), max: wrapped, body: vec![Stmt::Row { id: id2, entries: g.entries(&plan) }] }
+        }
+        2 => {
+            let id2 = g.row_id();
+            Stmt::While { cond: wrapped, body: vec![Stmt::Row { id: id2, entries: g.entries(&plan) }] }
+        }
+        3 => {
+            let id2 = g.row_id();
+            Stmt::Repeat { max: wrapped, id: id2, entries: g.entries(&plan) }
+        }
+        _ => {
+            // inside a row entry of an input column
+            let c = entries.iter().position(|e| matches!(e, Entry::Num(_) | Entry::Expr(_))).unwrap_or(0);
+            if matches!(entries[c], Entry::Num(_) | Entry::Expr(_)) {
+                entries[c] = Entry::Expr(wrapped);
+            } else {
+                entries[c] = Entry::Expr(wrapped);
+            }
+            Stmt::Row { id, entries: entries.clone() }
+        }
+    };
+    let at = g.rng.gen_range(if needs_u { 1 } else { 0 }..=prog.len());
+    prog.insert(at, stmt);
+    let test = Test { header: plan.header.clone(), supplied: plan.supplied.clone(), prog };
+    let layout = choose_layout(Lay::Mixed, seed, &mut g.rng);
+    let printed = print_test(&test.header, &test.prog, &layout);
+    let opt = Opt { layouts: LayoutMode::Subset, mode: ValMode::Wild, p_zx: 0.1, ..Opt::default() };
+    let spec = policy_for(&test, &opt, seed, &mut g.rng, 8);
+    let cfg = RunCfg { run, prop: prop.to_string(), own_write: g.rng.gen_bool(0.5), max_rows: 60, rng_seed: seed, after_none: 0, cfg_note: json!({"policy": format!("{:?}", spec)}) };
+    trace_run(&Prepared { test, printed, layout }, &cfg, make_policy(spec))
 }
